@@ -13,7 +13,7 @@ def run(ctx, res):
                 "yield points) issue mixed calls (bool, find, iterate, find-all, replace with 20 distinct replacements, split, timed and stack-limited matches) on 8 shared "
                 "Regexps and the process-wide buffer pools, built with the race detector; every result must equal the result of the same call on a fresh Regexp, a race report "
                 "is a violation, and the hook events (stamped with a global sequence number after acquisition / before release) are validated against Pool.tla by Obs_Pool: "
-                "a runner is never used by two goroutines at once, the cache's critical sections (held open by the hook callback until a second goroutine could have entered) are disjoint, every scan starts from the reset state, a runner returns to the pool with the full program, the cache stays "
+                "a runner is never used by two goroutines at once, the cache's critical sections (held open by the hook callback until a second goroutine could have entered) are disjoint, two goroutines that start timed matches together get their own, correct deadlines (forced interleavings H7, H8, H11 of the clock model), every scan starts from the reset state, a runner returns to the pool with the full program, the cache stays "
                 "bounded and consistent. evaluations = concurrent calls; traces = per-object event traces validated")
     poolobs.model(ctx, res, "Pool_quick.cfg" if ctx.tier == "quick" else "Pool.cfg")
     plans = [(8, 0, 60), (4, 2, 60), (32, 0, 25)] if ctx.tier == "quick" else [(8, 0, 300), (4, 2, 300), (32, 0, 150), (16, 1, 200), (64, 0, 60), (3, 3, 500)]
@@ -40,6 +40,16 @@ def run(ctx, res):
         nev = poolobs.validate_events(ctx, res, d, f"mutex-G{G}", ("cache.",))
         ctx.log(f"mutex G={G}: replace calls={d['steps']} critical-section events={nev}")
         res.evaluations += d["steps"]
+    # the shared timeout clock under concurrent callers: the real-time histories of C14 in which two goroutines meet inside
+    # makeDeadline / extendClock (concurrent deadlines, and the three interleavings forced through gate hooks)
+    from checks import c14
+    d, viols, soft, nev = c14.histories(ctx, res, "c11")
+    conc = [v for v in viols if v.get("history_id") in ("H6", "H7", "H8", "H11")]
+    for v in conc:
+        v = dict(v)
+        v["rule"] = "concurrent.timeout"
+        res.violation(v)
+    ctx.log(f"clock histories with concurrent callers: {sum(1 for c in d['checks'] if c['history'].split(' ')[0] in ('H6', 'H7', 'H8', 'H11'))} checks, {len(conc)} failed")
     res.assumptions += ["TLC", "the Go race detector is the observation instrument for data races", "events are logged after acquisition / before release, so logged ownership intervals lie inside the real ones",
                         "timing-out calls use a 25 ms timeout; the shared timeout clock itself is covered by C14"]
 
